@@ -390,21 +390,21 @@ theorem c11_filterMap_perm {g : String → Option Nat} {l1 l2 : List String} (n1
   · rintro ⟨h1, h2⟩; exact ⟨(h k h2).1 h1, h2⟩
   · rintro ⟨h1, h2⟩; exact ⟨(h k h2).2 h1, h2⟩
 
-theorem lookup_none_of_not_mem {α} (k : String) : ∀ l : List (String × α), k ∉ l.map (·.1) → lookup k l = none
+theorem c11_lookup_none_of_not_mem {α} (k : String) : ∀ l : List (String × α), k ∉ l.map (·.1) → lookup k l = none
   | [], _ => rfl
   | (k', v) :: rest, h => by
     simp only [List.map_cons, List.mem_cons, not_or] at h
     simp only [lookup]
     have : (k == k') = false := by simpa using h.1
     simp only [this, Bool.false_eq_true, if_false]
-    exact lookup_none_of_not_mem k rest h.2
+    exact c11_lookup_none_of_not_mem k rest h.2
 
 /-- a name outside `set(__dict__) | set(fields)` reads back `None` -/
 theorem getA_none_of_not_name (d : EqCtx) (x : Inst) (k : String) (h : k ∉ instNames d x) :
     getA d x k = .none := by
   simp only [instNames, mem_dedupS, List.mem_append, not_or] at h
-  have h1 := lookup_none_of_not_mem k x.attrs h.1.1
-  have h2 := lookup_none_of_not_mem k d.defaults h.2
+  have h1 := c11_lookup_none_of_not_mem k x.attrs h.1.1
+  have h2 := c11_lookup_none_of_not_mem k d.defaults h.2
   have h3 : d.fields.contains k = false := by simpa using h.1.2
   simp only [getA, h1, h2, h3, Bool.and_false, Bool.false_eq_true, if_false]
 /-- representation invariants of an instance for the canonical hash: the values (and the field
